@@ -10,7 +10,10 @@ open I3.SourcePin
 
 def modelled : List String := [
   "babyjub.PublicKey.VerifyMimc7",
-  "babyjub.PublicKey.VerifyPoseidon"
+  "babyjub.PublicKey.VerifyPoseidon",
+  "babyjub.<decls>@babyjub.go",
+  "babyjub.<decls>@eddsa.go",
+  "babyjub.<decls>@helpers.go"
 ]
 
 theorem source_pinned : modelled.all (same I3.Gen.fingerprints) = true := by decide +kernel
@@ -18,6 +21,6 @@ theorem source_pinned : modelled.all (same I3.Gen.fingerprints) = true := by dec
 theorem function_set_pinned : (["babyjub."] : List String).all (sameKeys I3.Gen.fingerprints) = true := by
   decide +kernel
 
-theorem modelled_nonempty : 2 = modelled.length := by decide
+theorem modelled_nonempty : 5 = modelled.length := by decide
 
 end I3.Props.C14
